@@ -52,6 +52,45 @@ def gen_ops(r, bs, nfiles, nops, inline, inline_sz=False):
     return ops
 
 
+def mkops(seq):
+    """('W', f, pos, nbytes, fill) | ('R', f, pos, n) | ('Z', f, size) | ('P', f, a, b) -> generator format"""
+    out = []
+    for t in seq:
+        if t[0] == "W":
+            data = (bytes([t[4]]) * t[3]).hex()
+            out.append((["S %d %d" % (t[1], t[2]), "W %d %s" % (t[1], data)], "W %d %d %s" % (t[1], t[2], data)))
+        elif t[0] == "R":
+            out.append((["S %d %d" % (t[1], t[2]), "R %d %d" % (t[1], t[3])], "R %d %d %d" % (t[1], t[2], t[3])))
+        elif t[0] == "Z":
+            out.append((["SZ %d %d" % (t[1], t[2])], "Z %d %d" % (t[1], t[2])))
+        elif t[0] == "P":
+            out.append((["FL %d" % t[1], "P @%d %d %d" % (t[1], t[2], t[3]), "REOPEN %d" % t[1]], "P %d %d %d" % (t[1], t[2], t[3])))
+    return out
+
+
+# minimised past failures and the case-split boundaries of truncate / punch, run first on three configurations
+def corpus(bs):
+    return [
+        [("W", 0, 0, 4, 0xAA), ("Z", 0, 2), ("Z", 0, 61), ("R", 0, 0, 100)],                                   # tail behind a truncation
+        [("W", 1, 12 * bs, bs + 1, 0xA1), ("Z", 1, 12 * bs), ("W", 1, 13 * bs, bs + 1, 0xB2)],                # buffered block freed by the truncate
+        [("W", 0, 12 * bs, 100, 0xC3), ("Z", 0, 12 * bs), ("W", 0, 12 * bs, 10, 0xD4), ("R", 0, 12 * bs, 20)],  # truncate exactly in front of the buffered block
+        [("W", 0, 0, 3 * bs - 100, 0x58), ("Z", 0, 2 * bs), ("W", 0, 2 * bs, 10, 0x59)],
+        [("W", 0, 0, 2 * bs - 100, 0x42), ("Z", 0, bs), ("W", 1, 0, bs, 0x43), ("R", 1, 0, bs)],               # a stale dirty buffer must not land in another file
+        [("W", 1, 19 * bs + 400, 500, 0xE5), ("P", 1, 8, 19)],                                                 # punch from the direct into the indirect range
+        [("W", 0, 0, 30 * bs, 0x77), ("P", 0, 10, 13), ("R", 0, 9 * bs, 6 * bs)],
+        [("W", 0, 0, 30 * bs, 0x78), ("P", 0, 5, 20), ("R", 0, 4 * bs, 18 * bs)],
+        [("W", 0, 0, 30 * bs, 0x79), ("P", 0, 0, 20)], [("W", 0, 0, 30 * bs, 0x7A), ("P", 0, 12, 12)], [("W", 0, 0, 30 * bs, 0x7B), ("P", 0, 11, 12)],
+    ]
+
+
+def corpus_case(src, hexe, mexe, k):
+    cfgs = [CONFIGS[2], CONFIGS[0], CONFIGS[1]]
+    name, opts = cfgs[k % 3]
+    bs = int(opts[opts.index("-b") + 1])
+    seq = corpus(bs)[k // 3]
+    return execute(src, hexe, mexe, name, opts, mkops(seq), 7000 + k)
+
+
 def one_case(src, hexe, mexe, idx, seed, tier):
     r = e2v.rng(seed, "c09", idx)
     name, opts = CONFIGS[idx % len(CONFIGS)]
@@ -270,6 +309,7 @@ def run(res, replay=None):
     with concurrent.futures.ThreadPoolExecutor(12) as ex:
         outs = list(ex.map(lambda i: one_case(src, hexe, mexe, i, seed, tier), idxs))
         if not replay:
+            outs = list(ex.map(lambda k: corpus_case(src, hexe, mexe, k), range(3 * len(corpus(1024))))) + outs
             outs += list(ex.map(lambda i: large_case(src, hexe, i, seed), range(9 if tier == "quick" else 600)))
     bad = []
     reads = ops = 0
